@@ -56,7 +56,18 @@ def one_config(chk, c, slot, tier, nostd_ok):
     t0 = time.time()
     rc, out = run(["cargo", "build", "--offline", "--lib", "--release", "--no-default-features", "--features", feats,
                    "--target-dir", os.path.join(tgt, f"c17-lib-{slot}")], chk.REPO, env)
-    warns = [l for l in out.splitlines() if l.startswith("warning") and "profiles for the non root package" not in l]
+    # compiler warnings attributed to the crate itself (a `warning:` line followed by a ` --> src/...` location,
+    # or naming fips204); cargo's own environment chatter is not the library's business
+    lines = out.splitlines()
+    warns = []
+    for i, l in enumerate(lines):
+        if not l.startswith("warning"):
+            continue
+        ctx = " ".join(lines[i:i + 3])
+        if "--> src/" in ctx or "fips204" in l:
+            if "generated" in l and "warning" in l and "fips204" in l and "--> src/" not in ctx:
+                continue  # the summary line of warnings already counted
+            warns.append(l)
     res["steps"]["build"] = {"exit": rc, "warnings": len(warns), "s": round(time.time() - t0, 1)}
     if rc != 0:
         res["failures"].append({"step": "build", "detail": out[-1500:]})
